@@ -43,6 +43,7 @@ EXPLANATION = (
     "log-likelihoods of any magnitude); the denominator depends on every component's beta, evidence and normalised batch "
     "size and no component is dropped, merged or special-cased. Numerical equality with the formula (e.g. a sign error "
     "that preserves dependence and types) is not decided."
+    " Also: the log-sum-exp over the components reduces the whole component matrix (no column selection) and the mixture log-density is not clamped before it is subtracted."
 )
 ASSUMPTIONS = ["recorded logz of iteration t shifts by beta_t * c (the guarantee side is decided under C10)", "numpy logaddexp.reduce is an exact log-sum-exp"]
 
